@@ -206,7 +206,7 @@ def write_replay(pid, tier, viol, unit_runs, witness=None):
 HARNESS_TARGET = os.path.join(VERIF, '.cache', 'harness-target')
 WITNESS_TESTS = {
     'C01': ['c01_search'], 'C02': ['c01_search'], 'C03': ['c03_witness', 'c03_search'], 'C05': ['c05_witness', 'c05_uses'], 'C10': ['c10_witness', 'c10_search'],
-    'C09': ['c09_witness'], 'C12': ['c12_witness'], 'C13': ['c13_witness'], 'C17': ['c17_witness'], 'C18': ['c18_witness'], 'C19': ['c19_witness'], 'C14': ['c14_witness', 'c14_search'], 'C15': ['c15_witness', 'c15_search'], 'C16': ['c16_witness', 'c16_alias'],
+    'C09': ['c09_witness', 'c09_session'], 'C12': ['c12_witness'], 'C13': ['c13_witness'], 'C17': ['c17_witness'], 'C18': ['c18_witness'], 'C19': ['c19_witness'], 'C14': ['c14_witness', 'c14_search'], 'C15': ['c15_witness', 'c15_search'], 'C16': ['c16_witness', 'c16_alias'],
 }
 
 
